@@ -165,7 +165,7 @@ func near(syncs [][2]int64, at int64) [][2]int64 {
 var c06sync = &h.Campaign[SyncCase]{
 	Prop: "C06", Sub: "concurrent-sync",
 	Rule: "rapid: 2-6 goroutines x 5-30 successful gets/puts on one db.DB whose audit sink stamps every Write completion and every Sync begin/end with a global sequence number and yields inside Write; for every successful call some Sync must have begun after that call's record was completely written and ended before the call returned; under the race detector; non-trivial = some record's write overlapped another caller's Sync; distinct by (scenario, run) since schedules are sampled",
-	Quick: 300, Thorough: 20000,
+	Quick: 300, Thorough: 60000,
 	Gen: func(rt *rapid.T) SyncCase {
 		return SyncCase{Goroutines: rapid.IntRange(2, 6).Draw(rt, "g"), Calls: rapid.IntRange(5, 30).Draw(rt, "calls"), Yield: rapid.IntRange(0, 4).Draw(rt, "yield")}
 	},
